@@ -30,7 +30,8 @@ Inductive obs :=
 | SawPlain (v : val)     (* x = yield <plain value> received it back *)
 | SawExc (e : err)       (* an except clause caught e *)
 | Mark (n : nat)
-| Cancelled (d : nat).   (* (environment) the canceller of Deferred d was called *)
+| Cancelled (d : nat)    (* (environment) the canceller of Deferred d was called *)
+| CancelNow (lvl : nat). (* the running function cancelled the Deferred of the call [lvl] levels up its call stack *)
 
 Inductive gen :=
 | GReturn (v : val)
@@ -38,7 +39,9 @@ Inductive gen :=
 | GYieldD (d : nat) (k : outcome -> gen)
 | GYieldV (v : val) (k : outcome -> gen)
 | GLog (t : obs) (g : gen)
-| GCall (inner : gen) (k : outcome -> gen).   (* yields the Deferred of a nested inlineCallbacks call *)
+| GCall (inner : gen) (k : outcome -> gen)    (* yields the Deferred of a nested inlineCallbacks call *)
+| GCancelNow (lvl : nat) (g : gen).          (* while RUNNING (not suspended), code called by the function cancels the
+                                                Deferred returned by the call [lvl] levels up its stack (0 = its own) *)
 
 Inductive stmt :=
 | SAwait (d : nat)                  (* x = yield D[d]; log(x) *)
@@ -52,7 +55,8 @@ Inductive stmt :=
 | SFinally (body fin : stmt)        (* try: body  finally: fin *)
 | SLoop (n : nat) (body : stmt)     (* for _ in range(n): body *)
 | SReturnValue (z : Z)              (* returnValue(z): raises _DefGen_Return, a BaseException no clause here catches *)
-| SCall (body : stmt).              (* x = yield inner(D, log), inner an @inlineCallbacks function with this body; log(x) *)
+| SCall (body : stmt)
+| SCancelUp (lvl : nat).             (* log(lvl); cancel the Deferred of the enclosing call lvl levels up, from inside *)              (* x = yield inner(D, log), inner an @inlineCallbacks function with this body; log(x) *)
 
 (** meaning of a statement, in continuation-passing style: what to do on normal completion, on an exception,
     on return *)
@@ -74,6 +78,7 @@ Fixpoint denote (s : stmt) (kn : gen) (kr : err -> gen) (kret : val -> gen) : ge
   | SCall b =>
       GCall (denote b (GReturn VNone) GRaise GReturn)
             (fun o => match o with Val v => GLog (SawVal v) kn | Exc e => kr e end)
+  | SCancelUp lvl => GCancelNow lvl kn
   end.
 
 (** a generator function whose body is [s] (falling off the end returns None) *)
@@ -130,6 +135,14 @@ Section Drive.
         if mem d (fired w)
         then drive (k (current w d)) (consume d w)     (* already fired: taken inside the loop *)
         else (Suspended d k, w)                         (* return; re-entered by _gotResultInlineCallbacks *)
+    | GCancelNow lvl g' =>
+        (* cancel() while the function is executing.  Every call from the target down to the running one is cancelled
+           in turn: each suspended one forwards the cancel to the Deferred it waits on — its child's —, gets a fresh
+           [status.deferred] (its old one is chained to it) and stays suspended; the running one is not waiting:
+           its [status.waitingOn] is stale, a Deferred that has already fired, whose cancel() does nothing.  No canceller
+           is called, nothing is delivered; the function goes on and its eventual outcome must be delivered through
+           the fresh [status.deferred] (which [_inlineCallbacks] therefore reads when it finishes, not earlier). *)
+        drive g' (say (CancelNow lvl) w)
     | GCall inner k =>
         (* the nested call runs its own driver until it finishes or suspends; in the latter case this driver
            suspends on the nested call's Deferred, i.e. (transitively) on what the innermost driver waits on, and is
@@ -195,6 +208,7 @@ Fixpoint sync (out : nat -> outcome) (g : gen) (cons : list nat) (log : list obs
   | GReturn v => (Val v, cons, log)
   | GRaise e => (Exc e, cons, log)
   | GLog t g' => sync out g' cons (push t log)
+  | GCancelNow lvl g' => sync out g' cons (push (CancelNow lvl) log)
   | GYieldV v k => sync out (k (Val v)) cons log
   | GYieldD d k => sync out (k (if mem d cons then Val VNone else out d)) (d :: cons) log
   | GCall inner k => let '(r, cons1, log1) := sync out inner cons log in sync out (k r) cons1 log1
